@@ -493,9 +493,20 @@ func replayModel(prog *Prog, o *Oblig, r *SolveResult, path string) (confirmed b
 	// decide
 	if pmsg, ok := observed["panic"]; ok {
 		detail["status"] = "real code panicked on the model input: " + pmsg
-		// a panic confirms bounds/unreachable/nowrap/post obligations alike: the function does
-		// not return normally on an input satisfying its preconditions.
-		return true, detail
+		// A panic on an input that satisfies the preconditions confirms a refuted safety
+		// obligation (bounds, nil, unreachable, nowrap). For other kinds it confirms only a
+		// definite refutation (solver said sat): a witness found by the relaxed search after an
+		// undecided answer may fail for reasons that have nothing to do with the obligation
+		// (e.g. an interface field left nil), so it is reported but not counted as confirmation.
+		switch o.Kind {
+		case "bounds", "nil", "unreachable", "nowrap":
+			return true, detail
+		}
+		if r.Status == "sat" && !r.Relaxed {
+			return true, detail
+		}
+		detail["status"] = fmt.Sprint(detail["status"]) + " (witness from the relaxed search after an undecided answer: not counted as confirmation)"
+		return false, detail
 	}
 	switch o.Kind {
 	case "post":
